@@ -289,6 +289,7 @@ def run(repo: Repo, ctx) -> None:
     dep_tables_rule(repo, ctx, 'C11.R9')
     _r10(repo, ctx)
     _r13(repo, ctx)
+    _r14(repo, ctx)
     # ---- R8 -------------------------------------------------------------------
     from . import c20
     c20.run(repo, _Sub(ctx, 'C11.R8'))
@@ -1107,3 +1108,110 @@ def _r13(repo, ctx):
     if n < 2:
         raise AnalysisError('C11.R13: writers of the ancestors index not '
                             'found')
+
+
+
+def _r14(repo, ctx):
+    """C11.R14 a type an expression names becomes a dependency.
+
+    (a) tracer: wherever a handler checks that a type name exists
+        (`check_type_exists(name, ...)`), that name is added to `ctx.refs`
+        on every path that does not raise -- by the handler after the check
+        or by the checker itself on each of its normal exits.  A type
+        declared in the same document takes the checker's early exit; if the
+        reference is only recorded after that exit, the dependency exists
+        only for types that are already in the schema.
+    (b) declarative: `trace_Function` records a TypeDependency for the type
+        expression of *every* parameter and for the return type, whatever
+        the shape of the parameter's type (a collection parameter depends on
+        its element type)."""
+    ctx.floor('C11.R14', 4)
+    m = repo.module(TRACER)
+    chk = m.functions.get('check_type_exists')
+    if chk is None:
+        raise AnalysisError('C11.R14: check_type_exists not found')
+    p0 = chk.params()[0]
+    gc = CFG(chk.node)
+    adds_c = [n.id for n in gc.nodes if any(
+        isinstance(c.func, ast.Attribute) and c.func.attr == 'add'
+        and norm(c.func.value).endswith('refs') and c.args
+        and norm(c.args[0]) == p0 for c in gc.node_calls(n))]
+    callee_adds = bool(adds_c) and gc.always_before(gc.exit, adds_c)
+    n = 0
+    for f in repo._funcs_of(m):
+        if f.parent is not None or f is chk:
+            continue
+        g = None
+        for c in ast.walk(f.node):
+            if isinstance(c, ast.Call) and call_name(c) == \
+                    'check_type_exists' and c.args:
+                g = g or CFG(f.node)
+                nm = norm(c.args[0])
+                site = [x.id for x in g.nodes if any(
+                    y is c for y in g.node_calls(x))]
+                adds = [x.id for x in g.nodes if any(
+                    isinstance(y.func, ast.Attribute) and y.func.attr == 'add'
+                    and norm(y.func.value).endswith('refs') and y.args
+                    and norm(y.args[0]) == nm for y in g.node_calls(x))]
+                ok = callee_adds
+                if not ok and site and adds:
+                    # every normal continuation of the check reaches an add
+                    r = g.reachable(site, avoid=adds)
+                    ok = g.exit not in r
+                n += 1
+                ctx.saw(f)
+                ctx.ob('C11.R14', f'{f.name}:type-ref-recorded', ok,
+                       f'{f.name} checks that `{nm}` exists but the name '
+                       f'does not reach ctx.refs on every normal path '
+                       f'(caller adds: {bool(adds)}, checker adds on all '
+                       f'its exits: {callee_adds}): a type declared in the '
+                       f'same document is not a dependency, so the '
+                       f'declaration that names it can be emitted first',
+                       f'{f.module.rel()}:{c.lineno}', sample=nm)
+    if n < 3:
+        raise AnalysisError(f'C11.R14: only {n} check_type_exists sites')
+    # (b)
+    tf = repo.module(DECL).functions.get('trace_Function')
+    if tf is None:
+        raise AnalysisError('C11.R14: trace_Function not found')
+    ctx.saw(tf)
+    node_p = tf.params()[0]
+
+    def is_dep(c, what):
+        return isinstance(c, ast.Call) and (call_name(c) or '').split(
+            '.')[-1] == 'TypeDependency' and any(
+            k.arg == 'texpr' and norm(k.value) == what for k in c.keywords)
+    # the whole-sequence form, or a loop every path of whose body records it
+    ok = False
+    for x in ast.walk(tf.node):
+        if isinstance(x, (ast.GeneratorExp, ast.ListComp)) and len(
+                x.generators) == 1 and norm(
+                x.generators[0].iter) == f'{node_p}.params' and not \
+                x.generators[0].ifs and is_dep(
+                    x.elt, f'{norm(x.generators[0].target)}.type'):
+            ok = True
+    if not ok:
+        for lp in [x for x in ast.walk(tf.node) if isinstance(x, ast.For)
+                   and norm(x.iter) == f'{node_p}.params']:
+            v = norm(lp.target)
+            mod = ast.Module(body=lp.body, type_ignores=[])
+            fake = ast.FunctionDef(
+                name='_', args=ast.arguments(
+                    posonlyargs=[], args=[], kwonlyargs=[], kw_defaults=[],
+                    defaults=[]), body=lp.body, decorator_list=[],
+                lineno=lp.lineno, col_offset=0)
+            gb = CFG(fake)
+            deps = [x.id for x in gb.nodes if any(
+                is_dep(c, f'{v}.type') for c in gb.node_calls(x))]
+            if deps and gb.always_before(gb.exit, deps):
+                ok = True
+    ctx.ob('C11.R14', 'trace_Function:every-param-type', ok,
+           'trace_Function does not record a TypeDependency for the type '
+           'of every parameter: a parameter whose type takes the other '
+           'branch (a collection of a user scalar) leaves the function '
+           'independent of that scalar, and the function can be created '
+           'first', tf.loc, sample='TypeDependency(texpr=param.type) for all')
+    ok = any(is_dep(c, f'{node_p}.returning') for c in ast.walk(tf.node))
+    ctx.ob('C11.R14', 'trace_Function:return-type', ok,
+           'trace_Function records no TypeDependency for the return type',
+           tf.loc, sample='TypeDependency(texpr=node.returning)')
